@@ -180,25 +180,37 @@ def cli_tasks():
             vs = set(around(ver)) | set(EXTRA[prod])
             for v in sorted(vs):
                 out.append((prod, ver, cat, name, v))
+            # the same boundary with each patch suffix of the product: the recommendations must make the judgement compare_version() makes
+            for sfx in PRODUCTS[prod][1]:
+                if sfx:
+                    out.append((prod, ver, cat, name, ver, sfx))
     return out
 
 
 def work_cli(chunk, st):
-    for prod, v0, cat, name, v in chunk:
+    for task in chunk:
+        prod, v0, cat, name, v = task[:5]
+        sfx = task[5] if len(task) > 5 else ''
         fmt, _ = PRODUCTS[prod]
-        srv = P.Server(banner=(fmt % (v, '')).encode(), kex=['sntrup761x25519-sha512@openssh.com'] if name != 'sntrup761x25519-sha512@openssh.com' else ['curve25519-sha256'],
+        srv = P.Server(banner=(fmt % (v, sfx)).encode(), kex=['sntrup761x25519-sha512@openssh.com'] if name != 'sntrup761x25519-sha512@openssh.com' else ['curve25519-sha256'],
                        key=['ssh-ed25519'] if name != 'ssh-ed25519' else ['rsa-sha2-512'], enc=['aes256-ctr'] if name != 'aes256-ctr' else ['aes128-ctr'],
                        mac=['hmac-sha2-256'] if name != 'hmac-sha2-256' else ['hmac-sha2-512'])
         res = H.audit(srv)
         rep = report.TextReport(res.stdout)
         added = [(n, c) for s, n, c, _v, _x in rep.rec if s == '+']
         has = (name, cat) in added
-        want = numcmp(v, v0) >= 0
-        st.execution(res.world, outcome=('cli', prod, has, want), root=('cli', prod, v0, name, v), nontrivial=('cli', prod, v0, name, v))
+        if sfx:
+            # numerically equal: the product's suffix rule decides, and the report must decide as the comparison function does
+            sw = mk(prod, v, sfx)
+            want = sw is not None and sw.compare_version(v0) >= 0
+        else:
+            want = numcmp(v, v0) >= 0
+        st.execution(res.world, outcome=('cli', prod, has, want), root=('cli', prod, v0, name, v, sfx), nontrivial=('cli', prod, v0, name, v, sfx))
         if 'software' not in rep.gen:
-            st.violation('cli:software-not-recognised:%s' % prod, {'banner': fmt % (v, ''), 'stdout': res.stdout[:200]})
+            st.violation('cli:software-not-recognised:%s' % prod, {'banner': fmt % (v, sfx), 'stdout': res.stdout[:200]})
         elif has != want:
-            st.violation('cli:availability:%s:%s' % (prod, vclass(v, v0)), {'product': prod, 'server_version': v, 'algorithm': name, 'appeared_in': v0, 'recommended': has})
+            st.violation('cli:availability:%s:%s' % (prod, vclass(v, v0) if not sfx else 'patch-suffix-at-boundary'),
+                         {'product': prod, 'server_version': v + sfx, 'algorithm': name, 'appeared_in': v0, 'recommended': has, 'compare_version_says_available': want})
     st.sample({'product': chunk[0][0], 'algorithm': chunk[0][3], 'appeared_in': chunk[0][1], 'server_version': chunk[0][4]}, cap=10)
 
 
@@ -393,7 +405,7 @@ def run(tier, seed):
     check_timeframes(st, tier)
     par.pmap(work_compat_cli, compat_cli_tasks(tier), stats=st, chunk=4)
     vcases = []
-    for prod, v0, cat, name, v in H.pick(cli_tasks(), seed, 12 if tier == 'quick' else 60):
+    for prod, v0, cat, name, v in H.pick([t for t in cli_tasks() if len(t) == 5], seed, 12 if tier == 'quick' else 60):
         fmt, _ = PRODUCTS[prod]
         vcases.append({'label': '%s %s' % (prod, v), 'opts': ['-n'] + (['-j'] if len(vcases) % 2 else []),
                        'make': (lambda fmt=fmt, v=v: P.Server(banner=(fmt % (v, '')).encode(), kex=['sntrup761x25519-sha512@openssh.com'], key=['ssh-ed25519'], enc=['aes256-ctr'], mac=['hmac-sha2-256']))})
